@@ -4,7 +4,7 @@ from __future__ import annotations
 import ast
 
 from ..astx import un, NoValue, walk_shallow, call_name, params
-from ..absint import Obj, Unk, PyFunc, Closure, ClassRef
+from ..absint import Raised, Obj, Unk, PyFunc, Closure, ClassRef
 from ..core import rule, fixture_for, Unknown
 from ..symenv import make_interp, rep_algebra, mv_obj
 from ..surface import operator_registry
@@ -106,6 +106,54 @@ def run_getitem(repo, qual, wrapper=False):
     log["generated_before_second"] = len(log["generated"])
     out2 = it.run(qual, [me, key])
     log["out2"] = out2
+    return log
+
+
+def run_getitem_sequence(repo, qual):
+    """Four look-ups on one dictionary object (generators stubbed): key A (miss), key A again, a key that was put into
+    the cache by hand beforehand, key B.  Returns generation counts and what the cache holds."""
+    kind, n, gen = GETITEMS[qual]
+    count = {"n": 0}
+
+    def generate(codegen, *mvs):
+        count["n"] += 1
+        return (tok(f"KEYS_OUT{count['n']}"), Obj("function", {"__name__": f"generated_fn{count['n']}", "name": f"FUNC{count['n']}"}))
+
+    def multivector(*args, **kwargs):
+        return Obj("MultiVector", {"_keys": kwargs.get("keys")})
+    alg = Obj("algebra", {"wrapper": None, "numspace": {}}, {"multivector": multivector})
+    keyA = (KEY0, KEY1) if n == 2 else KEY0
+    keyB = ((1, 2), (4,)) if n == 2 else (1, 2)
+    keyP = ((7,), (0, 7)) if n == 2 else (7, 0)
+    pre = (tok("KEYS_PRE"), Obj("function", {"__name__": "pre_fn", "name": "PRE"}))
+    cache = {keyP: pre}
+    me = Obj(kind, {"algebra": alg, "operator_dict": cache, "codegen": tok("CODEGEN"), "codegen_symbolcls": tok("SYMBOLCLS")})
+    it = make_interp(repo)
+    it.instance_classes.update({"OperatorDict": "operator_dict.OperatorDict", "UnaryOperatorDict": "operator_dict.UnaryOperatorDict",
+                                "Registry": "operator_dict.Registry"})
+    it.overrides[f"operator_dict.{gen}"] = PyFunc(generate, gen, True)
+    prev = it.class_call_hook
+    it.class_call_hook = lambda name, args, kwargs: Obj("TapeRecorder", {"_keys": kwargs.get("keys")}) if name == "TapeRecorder" else prev(name, args, kwargs)
+    log = {"key": keyA}
+    out1 = it.run(qual, [me, keyA])
+    if out1[0] == "raise":
+        return {"raised": out1[1]}
+    g1 = count["n"]
+    log["cache_keys_after_first"] = [k for k in cache if k != keyP]
+    log["stored_under_key"] = keyA in cache and cache.get(keyA) is out1[1]
+    out2 = it.run(qual, [me, keyA])
+    g2 = count["n"]
+    log["second_is_entry"] = out2[0] == "return" and out2[1] is cache.get(keyA)
+    out3 = it.run(qual, [me, keyP])
+    log["prepopulated_generated"] = count["n"] != g2
+    log["prepopulated_is_entry"] = out3[0] == "return" and out3[1] is pre
+    g3 = count["n"]
+    out4 = it.run(qual, [me, keyB])
+    if out4[0] == "raise":
+        return {"raised": out4[1]}
+    log["generations"] = [g1, g2, count["n"] - (g3 - g2)]
+    log["both_present"] = keyA in cache and keyB in cache and keyP in cache
+    log["cache_size_after_other"] = len(cache) - 1
     return log
 
 
@@ -291,6 +339,86 @@ def codegen_pipeline(ctx):
             ctx.violation(c, "; ".join(problems), fn, builder=builder)
         else:
             ctx.ok(c, fn, builder=builder, keys=keys)
+
+
+@rule("C08.pipeline-passthrough", props=["C08", "C13", "C07", "C05"], min_instances=4, mutants=[
+    ("dependencies reach lambdify only with cse", ("codegen", "    func = lambdify(args, exprs, funcname=funcname, cse=algebra.cse, dependencies=dependencies)", "    func = lambdify(args, exprs, funcname=funcname, cse=algebra.cse, dependencies=dependencies if algebra.cse else None)")),
+    ("empty operands skip the code generator", ("codegen", "    algebra = mvs[0].algebra\n\n    res = codegen(*mvs)\n", "    algebra = mvs[0].algebra\n\n    if not any(len(mv) for mv in mvs):\n        return CodegenOutput(tuple(), lambda *args: list())\n    res = codegen(*mvs)\n")),
+])
+def pipeline_passthrough(ctx):
+    """do_codegen hands what a composite code generator prepared (function name, arguments, precomputed
+    dependencies) to lambdify unchanged, with cse on and off, and always runs the code generator - also for operands
+    that store no blade at all - so that what the generator raises (ZeroDivisionError for a degenerate metric) reaches
+    the caller."""
+    from ..absint import ClassRef
+    repo = ctx.repo
+    q = "codegen.do_codegen"
+    fn = ctx.func(q)
+    for cse in (True, False):
+        c = f"{q}#prepared-input,cse={cse}"
+        alg = rep_algebra(3, extra_attrs={"cse": cse})
+        x = mv_obj(alg, (4, 1, 7), [tok("x3"), tok("x1"), tok("x123")])
+        deps = [(tok("d"), tok("DENOM_INV"))]
+        args = {"x": x.attrs["_values"]}
+        captured = {}
+
+        def lambdify(a, exprs, **kw):
+            captured.update({"args": a, "exprs": exprs, **kw})
+            return Obj("function", {"__name__": kw.get("funcname"), "name": "LAMBDIFIED"})
+        it = make_interp(repo)
+        it.algebra = alg
+        it.overrides["codegen.lambdify"] = PyFunc(lambdify, "lambdify", True)
+        try:
+            prepared = it.call(ClassRef("LambdifyInput"), [], {"funcname": "inv_7", "args": args, "expr_dict": {3: tok("E12"), 0: tok("E")}, "dependencies": deps})
+            it.plain_classes.setdefault("LambdifyInput", "codegen.LambdifyInput")
+            codegen = Obj("function", {"__name__": "codegen_stub", "name": "CODEGEN"}, call=lambda *a: prepared)
+            out = it.run(q, [codegen, x])
+        except NoValue as exc:
+            raise Unknown(c, str(exc), fn)
+        if out[0] == "raise" or not captured:
+            ctx.violation(c, f"do_codegen {out[0]}s {out[1]!r} without calling lambdify", fn)
+            continue
+        problems = []
+        if captured.get("dependencies") is not deps and captured.get("dependencies") != deps:
+            problems.append(f"lambdify receives dependencies={captured.get('dependencies')!r}, the generator prepared {[(str(a), str(b)) for a, b in deps]}: "
+                            f"the emitted function uses a name that is never computed")
+        if captured.get("funcname") != "inv_7":
+            problems.append(f"funcname {captured.get('funcname')!r} instead of the prepared 'inv_7'")
+        if captured.get("args") is not args:
+            problems.append("the prepared arguments are not passed on")
+        if captured.get("cse") is not cse:
+            problems.append(f"cse={captured.get('cse')!r} although the algebra has cse={cse}")
+        if [tname(e) for e in captured.get("exprs", [])] != ["E", "E12"]:
+            problems.append(f"expressions {[tname(e) for e in captured.get('exprs', [])]} instead of the canonical order ['E', 'E12']")
+        if problems:
+            ctx.violation(c, "; ".join(problems), fn)
+        else:
+            ctx.ok(c, fn)
+    for label, raises in (("empty operands, generator returns", None), ("empty operands, generator raises", "ZeroDivisionError")):
+        c = f"{q}#{label}"
+        alg = rep_algebra(3, extra_attrs={"cse": True})
+        x = mv_obj(alg, (), [])
+        called = []
+
+        def stub(*a, raises=raises, called=called):
+            called.append(1)
+            if raises:
+                raise Raised(raises)
+            return {}
+        it = make_interp(repo)
+        it.algebra = alg
+        it.overrides["codegen.lambdify"] = PyFunc(lambda a, e, **kw: Obj("function", {"__name__": kw.get("funcname"), "name": "LAMBDIFIED"}), "lambdify", True)
+        try:
+            out = it.run(q, [Obj("function", {"__name__": "codegen_stub", "name": "CODEGEN"}, call=stub), x])
+        except NoValue as exc:
+            raise Unknown(c, str(exc), fn)
+        if not called:
+            ctx.violation(c, "the code generator is not run for an operand that stores no blade: what it would raise (ZeroDivisionError in a "
+                             "degenerate algebra) is replaced by an empty result", fn)
+        elif raises and out != ("raise", raises):
+            ctx.violation(c, f"the generator raises {raises} but do_codegen gives {out!r}", fn)
+        else:
+            ctx.ok(c, fn)
 
 
 # --------------------------------------------------------------------------- emitted source
